@@ -303,6 +303,9 @@ class Driver:
         self.stmts = {}    # id -> dict(nparams, cursor: bool)
         self.pending_q = None   # ('text'|'exec'|'fieldlist', id, cursor)
         self.source = None
+        self.sources = []      # every row source the application handed out, for the cumulative pull count
+        self.handed_total = 0  # rows in packets passed to writer.write so far
+        self.counts = []       # (pulled, handed) after every event, next to self.obs
         self.done_reported = False
         self.init_returned = False
         self.last_cmd = None
@@ -341,6 +344,7 @@ class Driver:
                     # comparison with the model and the grammar oracle both reject it)
                     pk = [(e[1][3] if len(e[1]) > 3 else 0, ("UNKNOWN", "partial-packet-write"), e[1])]
                 outs.append(("OWrite", pk))
+                self.handed_total += sum(1 for _q, a, _p in pk if isinstance(a, tuple) and a[0] == "PRow")
             elif e[0] == "sess":
                 outs.append(("OSess", e[1]))
             elif e[0] == "wclose":
@@ -360,6 +364,7 @@ class Driver:
         self.events.append(term)
         self.cmds.append(self._cmd if term.startswith("EvPayload") else None)
         self.obs.append(self.observe())
+        self.counts.append((sum(x.pulled for x in self.sources), self.handed_total))
 
     def in_command_phase_at(self, ev):
         return self.session is not None and any(e.startswith("EvPayload") for e in self.events)
@@ -581,6 +586,7 @@ class Driver:
             else:
                 rows = src.rows()
             self.source = src
+            self.sources.append(src)
             cds = [len(packets.make_column_definition_41(server_charset=CharacterSet.utf8mb4, name=c.name, column_type=c.type,
                                                          character_set=c.character_set)) for c in cols]
             nrows = sum(1 for x in its if x[0] == "row")
@@ -714,6 +720,10 @@ def compare(driver: Driver, parsed):
         if mo != io or CTL[m_ctl[0]] != ob[1] or (mend is not None) != (ob[2] is not None) or (mend is not None and bool(mend) != ob[2]):
             return dict(step=i, event=ev, model=dict(out=mo, blocked=CTL[m_ctl[0]], end=mend),
                         impl=dict(out=io, blocked=ob[1], end=ob[2]), events=driver.events[: i + 1])
+        # the counters of Proofs/LazyProofs.v: rows pulled from the application's sources, rows handed to the socket
+        if i < len(driver.counts) and tuple(m_cnt) != tuple(driver.counts[i]):
+            return dict(step=i, event=ev, model=dict(pulled_handed=tuple(m_cnt)), impl=dict(pulled_handed=tuple(driver.counts[i])),
+                        events=driver.events[: i + 1])
     return None
 
 
